@@ -8,4 +8,6 @@ import (
 	"github.com/oasisprotocol/curve25519-voi/zzverif/mon"
 )
 
-func keccakDiff(r *mon.Run, c Case, rng *rand.Rand) { r.HookMissing("strobe graft (direct permutation differential)") }
+func keccakDiff(r *mon.Run, c Case, rng *rand.Rand) {
+	r.HookMissing("strobe graft (direct permutation differential)")
+}
